@@ -23,6 +23,7 @@ MUTANTS = [
      "        if ion != 0:\n            symbol = symbol.ion[ion]", "isotope tag ignored"),
     ("C01", "fire", F, "    formula = (ungrouped_mixture | compound | grouped_mixture)", "    formula = (compound | ungrouped_mixture | grouped_mixture)", "compound tried before the mixtures: '2L H2O@1' is rejected (reverse of the fix)"),
     ("C01", "silent", F, "    formula = (ungrouped_mixture | compound | grouped_mixture)", "    formula = (ungrouped_mixture | grouped_mixture | compound)", "grouped mixture before compound (disjoint first characters)"),
+    ("C01", "fire", F, "    mixture << (grouped_mixture | compound)", "    mixture << (compound | grouped_mixture)", "compound tried before the parenthesised mixture: '(1L H2O@1 // ...)' is rejected (reverse of the fix)"),
     # ---- C02
     ("C02", "fire", F, "ret.structure = ((other*q, f), )", "ret.structure = ((other+q, f), )", "single-fragment shortcut adds"),
     ("C02", "silent", F, "ret.structure = ((other*q, f), )", "ret.structure = ((q*other, f), )", "commuted product"),
